@@ -160,6 +160,12 @@ func (e *Env) QueuesIdle() bool {
 	return idle
 }
 
+// IdleNow is a one-shot version of the WaitIdle condition (without the stability window).
+func (e *Env) IdleNow() bool {
+	recs, _ := e.Tree.ReadLog()
+	return e.QueuesIdle() && len(e.Op.ScheduleManager.Ch()) == 0 && len(e.Op.KubeEventsManager.Ch()) == 0 && balanced(recs)
+}
+
 // WaitIdle polls until all queues stayed idle, the event channels are empty and the hook log is
 // stable for `stable`; ceiling bounds the wait (reached only by failing cases).
 func (e *Env) WaitIdle(stable, ceiling time.Duration) bool {
